@@ -46,6 +46,11 @@ ASSUMPTIONS = [
 
 
 class Sel:
+    """A selectable left registered.  Nobody has any business telling it that its connection is lost (the run it
+    belonged to is over; Spinner removes and reports it): if somebody does, its protocol reacts the way protocols
+    do - by scheduling something."""
+    reactor = None
+
     def __init__(self, n):
         self.n = n
 
@@ -53,7 +58,8 @@ class Sel:
         return -1
 
     def connectionLost(self, reason):
-        pass
+        if self.reactor is not None:
+            self.reactor.callLater(30.0, lambda: None)
 
     def logPrefix(self):
         return "sel%d" % self.n
@@ -169,7 +175,9 @@ def x_history(ctx, case):
                 for t in run.get("junk", []):
                     reactor.callLater(t, lambda: None)
                 for n in range(run.get("selectables", 0)):
-                    reactor.addReader(Sel(n))
+                    sel = Sel(n)
+                    sel.reactor = reactor
+                    reactor.addReader(sel)
                 if run.get("slow_work"):
                     def slow(amount=run["slow_work"][1]):
                         reactor.rightNow += amount       # slow synchronous work: nothing else runs meanwhile
@@ -213,11 +221,26 @@ def x_history(ctx, case):
             if run.get("stop_at") == "startup" and not junk_pending:
                 # a start-up trigger registered earlier that looks reactor.stop up when it fires
                 reactor.callWhenRunning(lambda: reactor.stop())
+            # the function may be any callable: a plain function, a functools.partial, an instance with __call__
+            given = function
+            if run.get("callable_as") == "partial":
+                import functools
+                given = functools.partial(function)
+            elif run.get("callable_as") == "instance":
+                class Callable:
+                    def __call__(self):
+                        return function()
+                given = Callable()
+            import threading as _threading
+            old_name = _threading.current_thread().name
+            if run.get("renamed_main"):
+                _threading.current_thread().name = "tvm-main"       # an application that names its threads
             try:
-                got = ("value", spinner.run(run["timeout"], function))
+                got = ("value", spinner.run(run["timeout"], given))
             except BaseException as e:  # noqa - that is the observation
                 got = ("raise", type(e).__name__)
             finally:
+                _threading.current_thread().name = old_name
                 # ---- process restored, whatever happened --------------------------------------
                 ctx.check(not reactor.running and not reactor.getDelayedCalls()
                           and not reactor.getReaders() and not reactor.getWriters(),
@@ -398,6 +421,10 @@ def run(ctx):
                 continue
             n += 1
             run1 = dict(base, **v)
+            if n % 3:
+                run1["callable_as"] = ["partial", "instance"][n % 2]      # not a plain function
+            if n % 4 == 1:
+                run1["renamed_main"] = True
             ctx.execute("history", {"runs": [run1], "handlers": ["default_int", "py", "ign", "dfl"][n % 4]},
                         sample=(n % 211 == 0))
     ctx.note_space("function kind (29) x timeout (3, incl. 0) x stop instant (8, incl. during reactor start-up) x 6 variants (junk, selectables, handler "
